@@ -792,6 +792,12 @@ def main():
     from vf.sandbox import run_extra as _run_extra
     from vf.common import seed as _seed, tier as _tier
     _run_extra(run, "vf.history:h_reaction_setters", [{"seed": _seed(), "idx": _i} for _i in range(800 if _tier() == "thorough" else 80)], cpu_budget=120, kind_prefix="history: ")
+    # objects built with default arguments do not share them (vf/history.py: h_default_isolation)
+    from vf.sandbox import run_extra as _rx
+    from vf.common import seed as _sd0, tier as _tr0
+    _w = ['reaction', 'network']
+    _rx(run, "vf.history:h_default_isolation", [{"seed": _sd0(), "idx": _i, "which": _w[_i % len(_w)]} for _i in range(1400 if _tr0() == "thorough" else 140)],
+        cpu_budget=60, kind_prefix="history: ")
     return run.finish()
 
 
